@@ -187,7 +187,7 @@ func main() {
 		kind := "main"
 		if edge {
 			kind = "edge"
-			g.N = lib.Pick(r, []int{1, 1, 2, 7})
+			g.N = lib.Pick(r, []int{1, 1, 2, 7, 0}) // incl. the empty slice (ErrEmptySlice, nothing stored)
 		}
 		if r.Chance(1, 6) {
 			g.Type = lib.Pick(r, mapTypes)
